@@ -393,8 +393,10 @@ def warm_cache(sc: dict, storage_dir: str) -> dict[int, Value]:
     saved = quiet_logger(rec)
     probe_mod.set_active(None)
     try:
+        # (the spy bounds a spinning coordinator, so that a hang is a verdict and not a wall-clock kill)
         lab = labtech.Lab(storage=storage_dir, continue_on_failure=False, notebook=False,
-                          context=base_context(sc.get('gen_pre', 0)), runner_backend='serial')
+                          context=base_context(sc.get('gen_pre', 0)),
+                          runner_backend=SpyBackend(SerialRunnerBackend(), Rec()))
         res = lab.run_tasks(built.requested, disable_progress=True, disable_top=True)
     finally:
         restore_logger(saved)
@@ -463,7 +465,7 @@ def probe_load(sc: dict, storage_dir: str, node: int, context: dict):
     probe_mod.set_active(lp)
     try:
         lab = labtech.Lab(storage=storage_dir, continue_on_failure=False, notebook=False,
-                          context=context, runner_backend='serial')
+                          context=context, runner_backend=SpyBackend(SerialRunnerBackend(), Rec()))
         try:
             v = lab.run_task(t, disable_progress=True, disable_top=True)
         except BaseException as ex:
@@ -540,7 +542,7 @@ def execute(sc: dict, ch: Choices, storage_dir: Optional[str], storage_obj=None,
     if storage_dir is not None and sc.get('cached') and not sc.get('skip_warm'):
         try:
             out.pre_values = warm_cache(sc, storage_dir)
-        except Exception as ex:
+        except (Exception, SimAbort) as ex:
             # the earlier run that should create the cache pre-state is itself a labtech run in which every task succeeds
             out.kind = 'warmup-failed'
             out.exc = describe_exc(ex)
